@@ -182,10 +182,10 @@ def prJoinList (d : Gen.D) : List Join → Except Err (List String)
 def prSets (d : Gen.D) : List (List Expr) → Except Err (List String)
   | [] => .ok []
   | g :: r => do
-      let a ← (match g with
-        | [] => .error (.py .IndexError)
-        | [x] => (prE d x).map (wrap x 8)
-        | x :: y :: z => (prList8 d (x :: y :: z)).map fun p => s!"({joinS ", " p})")
+      let a ← (prList8 d g).map fun p =>
+        (match p with
+         | [s] => if s.startsWith "(" then s!"({s})" else s
+         | _ => s!"({joinS ", " p})")
       let b ← prSets d r
       pure (a :: b)
 def prLateral (d : Gen.D) : Lateral → P
